@@ -46,6 +46,7 @@ def build(n: int, disabled_last: bool = False):
                       activation=fl.General(), rules=[fl.Rule.create(r) for r in rules])
     if disabled_last:
         inputs[-1].enabled = False  # a disabled input variable is still a column of the grid
+        out2.enabled = False        # ... and a disabled output variable still a column of the table (its value stays nan)
     return fl.Engine(f"e{n}", input_variables=inputs, output_variables=[out1, out2], rule_blocks=[rb])
 
 
